@@ -81,8 +81,8 @@ pub struct Method {
     pub out: Out,
 }
 
-const NAMES: [&str; 6] = ["a", "get_x", "get_2fa", "get_url_now", "x2", "do_the_big_thing"];
-const PNAMES: [&str; 4] = ["p", "user_name", "n2", "the_long_one"];
+const NAMES: [&str; 9] = ["a", "get_x", "get_2fa", "get_url_now", "x2", "do_the_big_thing", "a_b_c", "sha256_sum", "v1_2x"];
+const PNAMES: [&str; 6] = ["p", "user_name", "n2", "the_long_one", "x_1", "a_b"];
 
 /// PascalCase of a snake_case name, written from the definition (not from the macro).
 pub fn pascal(s: &str) -> String {
@@ -130,7 +130,7 @@ pub fn methods(thorough: bool) -> Vec<Method> {
             out.push(Method {
                 rust_name: format!("{}_{n}", NAMES[n % NAMES.len()]),
                 rename: if n % 5 == 2 { Some(["GetURL", "X", "lowerCamel", "Get2FA"][n % 4]) } else { None },
-                params: l.iter().enumerate().map(|(j, t)| (PNAMES[j].to_string(), *t, if (n + j) % 3 == 0 { Some(["wireName", "other-name", "n"][(n + j) % 3 + (j % 2)].to_string()) } else { None })).collect(),
+                params: l.iter().enumerate().map(|(j, t)| (PNAMES[(j + n) % PNAMES.len()].to_string(), *t, if (n + j) % 3 == 0 { Some(["wireName", "other-name", "n"][(n + j) % 3 + (j % 2)].to_string()) } else { None })).collect(),
                 explicit_lifetimes: explicit,
                 kind,
                 out: if kind == Kind::Oneway { Out::Unit } else { outs[(n / 2) % 3] },
